@@ -673,3 +673,125 @@ def c20(seed, tier):
 
 
 CHECKS = {'C12': c12, 'C13': c13, 'C17': c17, 'C18': c18, 'C20': c20}
+
+
+# ------------------------------------------------------------------------------------------ C19 / C21 (small real subsets)
+def _rel_check(mp, fails, fn, xdesc, prec, r, lo, hi, bound, counters, cls=None):
+    counters[0] += 1
+    if lo is None or hi is None or isinstance(lo, float) or isinstance(hi, float):
+        counters[0] -= 1
+        return
+    if not _is_real_finite(mp, r):
+        f = {'fn': fn, 'x': xdesc, 'prec': prec, 'observed': 'returned %r' % (r,)}
+    else:
+        v = definite_relerr_violation(_frac(r), lo, hi, bound)
+        if v is None:
+            counters[1] += 1
+            return
+        if not v:
+            return
+        f = {'fn': fn, 'x': xdesc, 'prec': prec, 'observed': 'returned %s; reference in [%s, %s]' % (mp.nstr(r, 30), float(lo), float(hi))}
+    if cls:
+        f['class'] = cls
+    fails.append(f)
+
+
+def c19(seed, tier):
+    """zeta(s) for real s (MPFR mpfr_zeta), altzeta through (1 - 2**(1-s)) * zeta(s), polylog(2, x) for real x <= 1
+    (MPFR mpfr_li2), bernpoly / eulerpoly at rational points against the exact rational polynomials"""
+    from mpmath import mp
+    rng = random.Random(seed)
+    fails = []
+    cnt = [0, 0]
+    ss = [Fraction(k, 4) for k in range(-40, 200) if k != 4] + [1 + sg * Fraction(1, 1 << j) for j in (10, 30) for sg in (1, -1)] + \
+         [Fraction(-k) - Fraction(1, 2) for k in range(1, 60, 7)] + [Fraction(300), Fraction(1001, 2)]
+    xs2 = [Fraction(k, 16) for k in range(-64, 17)] + [Fraction(-1000), 1 - Fraction(1, 1 << 20), Fraction(1, 1 << 40)]
+    precs = (10, 24, 53, 113) if tier == 'quick' else (10, 11, 24, 53, 64, 113, 200, 400, 1000)
+    try:
+        for prec in precs:
+            mp.prec = prec
+            bound = Fraction(2) ** (8 - prec)
+            for s in (ss if prec <= 113 else ss[::6]):
+                sm = _mk(mp, s)
+                lo, hi = mpfr.enclose('zeta', [s], prec)
+                r = _safe(mp.zeta, sm)
+                even_neg = (s.denominator == 1 and s < 0 and s.numerator % 2 == 0)
+                if even_neg:
+                    cnt[0] += 1
+                    if not (isinstance(r, mp.mpf) and r == 0):
+                        fails.append({'fn': 'zeta', 'x': str(s), 'prec': prec, 'observed': 'returned %r at a trivial zero' % (r,)})
+                    continue
+                _rel_check(mp, fails, 'zeta', str(s), prec, r, lo, hi, bound, cnt)
+            for x in (xs2 if prec <= 113 else xs2[::5]):
+                if x == 0:
+                    continue
+                lo, hi = mpfr.enclose('li2', [x], prec)
+                r = _safe(mp.polylog, 2, _mk(mp, x))
+                _rel_check(mp, fails, 'polylog(2, x)', str(x), prec, r, lo, hi, bound, cnt)
+            # Bernoulli / Euler polynomials at rational points: exact rational values
+            from .boundedprops import round_exact                          # noqa: F401
+            B = [Fraction(1)]
+            for m in range(1, 16):
+                B.append(-sum(Fraction(_binom(m + 1, j)) * B[j] for j in range(m)) / (m + 1))
+            for nn in (1, 2, 3, 6, 9, 14):
+                for x in (Fraction(1, 3), Fraction(-5, 2), Fraction(7, 8), Fraction(10)):
+                    xm = mp.mpf(x.numerator) / x.denominator
+                    xq = _frac(xm)
+                    want = sum(Fraction(_binom(nn, j)) * B[j] * xq ** (nn - j) for j in range(nn + 1))
+                    if want == 0:
+                        continue
+                    r = _safe(mp.bernpoly, nn, xm)
+                    _rel_check(mp, fails, 'bernpoly', '%d, %s' % (nn, xq), prec, r, want, want, bound, cnt)
+    finally:
+        mp.prec = 53
+    return cnt[0], cnt[0], fails, [{'fn': 'zeta', 'x': '1/2', 'prec': 53}], \
+        ('real arguments only: zeta(s) for %d real s in -10..50 (quarter steps, near 1, negative half-integers; trivial zeros exact), '
+         'polylog(2, x) for %d real x <= 1, bernpoly at rational points against the exact rational polynomial; precisions %s; %d inputs skipped; '
+         'reference MPFR %s.  Not covered: complex arguments, Hurwitz zeta, derivatives, altzeta, dirichlet, lerchphi, eulerpoly, stieltjes, '
+         'primezeta, siegeltheta, siegelz, riemannr' % (len(ss), len(xs2), list(precs), cnt[1], mpfr_version()))
+
+
+def _binom(n, k):
+    r = 1
+    for i in range(k):
+        r = r * (n - i) // (i + 1)
+    return r
+
+
+def c21(seed, tier):
+    """besselj / bessely of integer order and airyai on the real axis (MPFR jn, yn, ai)"""
+    from mpmath import mp
+    fails = []
+    cnt = [0, 0]
+    xs = [Fraction(k, 8) for k in range(1, 200, 3)] + [Fraction(1, 1 << 20), Fraction(1, 1 << 60), Fraction(50), Fraction(1000, 3).limit_denominator(1), Fraction(12345, 64)]
+    precs = (10, 24, 53, 113) if tier == 'quick' else (10, 11, 24, 53, 64, 113, 200, 400, 1000)
+    try:
+        for prec in precs:
+            mp.prec = prec
+            bound = Fraction(2) ** (8 - prec)
+            sub = xs if prec <= 113 else xs[::5]
+            for x in sub:
+                xm = _mk(mp, x)
+                for nn in (0, 1, 2, 5, 17):
+                    lo, hi = mpfr.enclose('jn', [('si', nn), x], prec)
+                    r = _safe(mp.besselj, nn, xm)
+                    _rel_check(mp, fails, 'besselj', '%d, %s' % (nn, x), prec, r, lo, hi, bound, cnt)
+                    lo, hi = mpfr.enclose('yn', [('si', nn), x], prec)
+                    r = _safe(mp.bessely, nn, xm)
+                    _rel_check(mp, fails, 'bessely', '%d, %s' % (nn, x), prec, r, lo, hi, bound, cnt)
+                for sg in (1, -1):
+                    if abs(x) > 40:
+                        continue
+                    lo, hi = mpfr.enclose('ai', [sg * x], prec)
+                    r = _safe(mp.airyai, _mk(mp, sg * x))
+                    _rel_check(mp, fails, 'airyai', str(sg * x), prec, r, lo, hi, bound, cnt)
+    finally:
+        mp.prec = 53
+    return cnt[0], cnt[0], fails, [{'fn': 'besselj', 'x': '0, 1', 'prec': 53}], \
+        ('real arguments only: besselj(n, x), bessely(n, x) for n in {0, 1, 2, 5, 17} and %d positive x (2^-60 .. 333), airyai on [-40, 40]; '
+         'precisions %s; %d inputs skipped (enclosure straddles zero: the functions oscillate); reference MPFR %s.  Not covered: non-integer and '
+         'complex orders and arguments, besseli/k, hankel, airybi, derivatives, struve, kelvin, scorer, coulomb, anger/weber, lommel, the zero finders'
+         % (len(xs), list(precs), cnt[1], mpfr_version()))
+
+
+CHECKS.update({'C19': c19, 'C21': c21})
